@@ -574,6 +574,21 @@ def oracle_c17(ctx, budget_s):
         if not valid:
             continue
         blk = case.built.block
+        # metamorphic twin: the same design with non-string level names (0, 1, 2 / 0.0, 1.0 / False, True) on the
+        # simple factors; renaming levels must not change any verdict
+        twin_desc = twin_blk = None
+        if not any(l["w"] != 1 for f in case.desc["factors"] for l in f["levels"]):
+            twin_desc = json.loads(json.dumps(case.desc))
+            styles = [lambda i: i, lambda i: float(i), lambda i: bool(i)]
+            for k, f in enumerate(twin_desc["factors"]):
+                if f["window"] is None:
+                    st = styles[(k + ctx.seed) % 3] if len(f["levels"]) == 2 else styles[(k + ctx.seed) % 2]
+                    for i, l in enumerate(f["levels"]):
+                        l["name"] = st(i)
+            try:
+                twin_blk = D.build(twin_desc).block
+            except Exception:
+                twin_desc = twin_blk = None
         cands = []
         for s in valid[:6]:
             cands.append(s)
@@ -594,6 +609,18 @@ def oracle_c17(ctx, budget_s):
                     mm or "{}", v or "valid", O.fmt_seq(case.desc, s)), {"seq": s},
                     known_for(case.regs, "C17", sig))
                 break
+            if twin_blk is not None:
+                try:
+                    mm2 = quiet(sp.sample_mismatch_experiment, twin_blk, D.seq_to_exp(twin_desc, s))
+                except Exception as e:
+                    mm2 = {"exception": type(e).__name__}
+                ctx.count("C17.twin")
+                if (mm2 == {}) != (not v):
+                    report(ctx, "mismatch", case, "with the simple levels renamed to %s the mismatch checker says %s, the "
+                           "reference says %s, for %s" % ([[l["name"] for l in f["levels"]] for f in twin_desc["factors"] if f["window"] is None],
+                                                          mm2 or "{}", v or "valid", O.fmt_seq(case.desc, s)), {"seq": s, "twin": True},
+                           known_for(case.regs, "C17", "mismatch:twin"))
+                    break
         ctx.case(("C17", json.dumps(case.desc, sort_keys=True)), True,
                  sample={"design": sample_desc(case), "candidates": len(cands)} if len(ctx.samples) < 3 else None)
         if ctx.failures:
